@@ -19,6 +19,7 @@ type Val struct {
 	ArrRef *Term     // slice value created by slicing a local array: reference of that array (element access goes to its memory)
 	ArrT   types.Type
 	Prov *Prov     // the value was loaded from a guarded field (lock discipline)
+	Boxed types.Type // static type of the value an interface value was made from (MakeInterface)
 	GT  string   // ghost map type text (ghost values only)
 	GPkg *types.Package
 }
